@@ -577,6 +577,33 @@ class Interp:
     def load_name(self, name, fr, node=None):
         if name in fr.locals:
             return fr.locals[name]
+        # a name the function assigns somewhere is a local: reading it before any assignment is Python's
+        # UnboundLocalError, not a global lookup
+        fn = getattr(getattr(fr, "func", None), "node", None)
+        if fn is not None and not fr.spec:
+            assigned = getattr(fn, "_pyvc_assigned", None)
+            if assigned is None:
+                assigned = set()
+                skip = set()
+                stack = list(fn.body)
+                while stack:
+                    sub = stack.pop()
+                    if isinstance(sub, (ast.FunctionDef, ast.AsyncFunctionDef, ast.ClassDef)):
+                        assigned.add(sub.name)
+                        continue        # own scope
+                    if isinstance(sub, (ast.Lambda, ast.ListComp, ast.SetComp, ast.DictComp, ast.GeneratorExp)):
+                        continue        # own scope (the outermost iterable is evaluated outside, names only read)
+                    if isinstance(sub, ast.Name) and isinstance(sub.ctx, ast.Store):
+                        assigned.add(sub.id)
+                    elif isinstance(sub, (ast.Global, ast.Nonlocal)):
+                        skip.update(sub.names)
+                    elif isinstance(sub, ast.ExceptHandler) and sub.name:
+                        assigned.add(sub.name)
+                    stack.extend(ast.iter_child_nodes(sub))
+                assigned -= skip
+                fn._pyvc_assigned = assigned
+            if name in assigned:
+                raise PyRaise("UnboundLocalError", name)
         clo = getattr(fr, "closure", None)
         while clo is not None:
             if name in clo.locals:
